@@ -447,6 +447,9 @@ func (e *HTTPEndpointExpr) Validate() error {
 			allTagged = false
 		} else {
 			hasTags = true
+			if IsObject(e.MethodExpr.Result.Type) && e.MethodExpr.Result.Find(r.Tag[0]) == nil {
+				verr.Add(r, "Tag attribute %q not found in result type", r.Tag[0])
+			}
 		}
 		if r.StatusCode < 400 {
 			if successResp && e.MethodExpr.Stream == ServerStreamKind {
